@@ -273,6 +273,12 @@ pub fn parse_proj(definition: &str) -> Result<String, Error> {
     trimmed = (" ".to_string() + &trimmed.normalize()).replace(" +", " ");
     trimmed = " ".to_string() + &trimmed.normalize() + " ";
 
+    // Only text with an actual 'proj=' clause is PROJ syntax (a comment or a
+    // value merely mentioning "proj" is not)
+    if !trimmed.contains(" proj=") {
+        return Ok(definition.to_string());
+    }
+
     // Remove empty steps and other non-significant whitespace
     let steps: Vec<String> = trimmed
         // split into steps
